@@ -130,10 +130,14 @@ _pb("C04", "contract-based deductive verification (pyvc) of add_topnode (with al
     "constituent' is proved for the guarded moves (C12, C13). Token sequence, label multisets and the transformations as "
     "wholes are bounded only.",
     "proof of the link-consistency step at 9 sites (block contracts), bounded stand-in for the transformations; 'other'")
-_pb("C09", "contract-based deductive verification (pyvc) of grammarconst.label_strip_fanout (loop invariant, variant, raises iff all digits); bounded stand-in for the grammar files",
+_pb("C09", "contract-based deductive verification (pyvc) of grammarconst.label_strip_fanout (loop invariant, variant, raises iff all digits), of grammaranalysis.is_contextfree (nested loops over the keys of a nested dict, early return), of the last statements of fan_out and of the guard of grammaroutput.lopar (block contracts); bounded stand-in for the grammar files",
     "label_strip_fanout removes exactly the maximal trailing digit run and raises IndexError exactly for all-digit "
-    "labels (proved, with termination). File formats and the CLI are bounded only.",
-    "proof for label_strip_fanout, bounded stand-in for the writers/readers; 'other'")
+    "labels (proved, with termination). is_contextfree returns True exactly when every linearization of every rule has at "
+    "most one argument (dict iteration = an unknown duplicate-free enumeration of exactly the keys; linearizations are "
+    "opaque keys, fan_out is used through 'result[0] is the number of arguments', which is proved on the last two statements "
+    "of fan_out); the guard of the LoPar writer raises ValueError exactly for grammars that are not context-free and nothing "
+    "is opened before it. The per-symbol fan-outs, file formats and the CLI are bounded only.",
+    "proof for label_strip_fanout, is_contextfree and the LoPar guard, bounded stand-in for the writers/readers; 'other'")
 _pb("C11", "contract-based deductive verification (pyvc) of filter_by_length and of trees.delete_terminal (three loops: climb to the root, upward pruning with list removal, renumbering) + a lemma over its contract, and of one step of insert_terminals and of substitute_terminals as block contracts (the lookup in the parameter-file table abstracted to an opaque pair); bounded stand-in for the token-editing transformations",
     "filter_by_length drops exactly the trees the operator names. delete_terminal, the kernel of punctuation and trace "
     "deletion, is proved for every well-formed tree and token: it returns the lowest ancestor of the token that keeps a "
@@ -275,7 +279,7 @@ PROPS["C16"]["explanation"] = ("Proved for all inputs: gap_degree_node == set-ba
                                "trees.preorder, trees.terminals and trees.children used at call sites are verified under C19. disco_order of a binarized tree lists exactly the tokens below the node, each once "
                                "(both modes; recursion with a decreasing rank). Lemma three_way: gap_degree(tree) > 0 iff the bracket writer's refusal "
                                "condition holds iff the linearization block of extract builds more than one argument for some constituent below "
-                               "the tree (is_contextfree / fan_out themselves are not under contract). Printed reports and that the reordering "
+                               "the tree (is_contextfree is under contract in C09 over opaque linearization keys; fan_out only for its first entry). Printed reports and that the reordering "
                                "is the identity on continuous trees are bounded only.")
 PROPS["C19"]["technique"] = ("contract-based deductive verification (pyvc, read-only heap with ghost depth/anc/pos/rank) of terminals, children, "
                              "preorder, postorder, levels, right_sibling, left_sibling, dominance, lca + lemmas (siblings inverse, lca lowest; two "
